@@ -721,4 +721,46 @@ func runC08(c *config) {
 	for i := 0; i < 500*c.scale; i++ {
 		c08Module(c, r, i < 2)
 	}
+	// declarations: the unnamed parameters are numbered too, whether the function is printed on its own
+	// (Func.LLString on a function nothing has printed yet) or through its module
+	for i := 0; i < 200*c.scale; i++ {
+		np := r.intn(6)
+		var pnames []string
+		var want []string
+		id := 0
+		for k := 0; k < np; k++ {
+			if r.chance(35) {
+				pnames = append(pnames, fmt.Sprintf("p%d", k))
+				want = append(want, fmt.Sprintf("i32 %%p%d", k))
+			} else {
+				pnames = append(pnames, "")
+				want = append(want, fmt.Sprintf("i32 %%%d", id))
+				id++
+			}
+		}
+		expect := "declare void @d(" + strings.Join(want, ", ") + ")"
+		for _, through := range []string{"function", "module"} {
+			m := ir.NewModule()
+			ps := make([]*ir.Param, len(pnames))
+			for k, nm := range pnames {
+				ps[k] = ir.NewParam(nm, types.I32)
+			}
+			f := m.NewFunc("d", types.Void, ps...)
+			var got string
+			oc, msg := guard(func() error {
+				if through == "function" {
+					got = f.LLString()
+				} else {
+					got = strings.TrimSpace(m.String())
+				}
+				return nil
+			})
+			c.out.Stat("declarations." + through)
+			if oc != ocOk || got != expect {
+				c.out.Fail("llvm_numbering", "", "the parameters of a declaration are not numbered as LLVM numbers them", map[string]interface{}{"printed": got, "expected": expect, "through": through, "msg": msg})
+			} else {
+				c.out.Pass("llvm_numbering")
+			}
+		}
+	}
 }
